@@ -44,24 +44,92 @@ Lemma conv_ctor_reject : forall c, conv_ctor_domain c = false -> conv_ctor_accep
 Proof.
   intros c H. unfold conv_ctor_domain, conv_ctor_accepts in *.
   destruct (forallb (fun r => cc_stride c <=? r) (cc_rf c)); [|now rewrite !andb_false_r].
-  destruct (forallb (fun '(n, r) => r <=? n + 2 * cc_pad c) (combine (cc_dims c) (cc_rf c))); [|now rewrite !andb_false_r].
+  destruct (0 <=? cc_pad c)%Z eqn:Epad.
+  2:{ assert ((cc_pad c <? 0)%Z = true) as -> by (apply Z.ltb_lt; apply Z.leb_gt in Epad; exact Epad).
+      cbn [negb]. now rewrite !andb_false_r. }
+  assert ((cc_pad c <? 0)%Z = false) as -> by (apply Z.ltb_ge; apply Z.leb_le in Epad; exact Epad).
+  destruct (forallb (fun '(n, r) => r <=? n + 2 * pad_nat c) (combine (cc_dims c) (cc_rf c))); [|now rewrite !andb_false_r].
   destruct (mem_str (cc_param c) ["raw"; "walsh"]); [|reflexivity].
   destruct (mem_str (cc_weight_init c) ["residual"; "random"]); [|reflexivity].
   destruct (mem_str (cc_sampling c) ["soft"; "hard"; "gumbel_soft"; "gumbel_hard"]); [|reflexivity].
-  cbn [andb] in *. rewrite !andb_true_r in *.
-  unfold mem_str in H. cbn [existsb] in H. rewrite orb_false_r in H.
+  destruct (mem_str (cc_impl c) [""; "python"; "cuda"]); [|reflexivity].
+  cbn [andb negb] in *. rewrite !andb_true_r in *.
   destruct (String.eqb (cc_connections c) "random") eqn:E1.
   - apply String.eqb_eq in E1. rewrite E1 in H. cbn in H. discriminate.
-  - destruct (String.eqb (cc_connections c) "random-unique") eqn:E2; [|reflexivity]. cbn in H. exact H.
+  - cbn [orb] in H. destruct (is_unique (cc_connections c)) eqn:E2; [|reflexivity]. cbn in H. exact H.
 Qed.
 
 Lemma conv_ctor_accept : forall c, conv_ctor_domain c = true -> conv_ctor_accepts c = true.
 Proof.
   intros c H. unfold conv_ctor_domain, conv_ctor_accepts in *.
-  repeat rewrite andb_true_iff in H. destruct H as [[[[[[Hs Hf] Hc] Hp] Hw] Hm] Hu].
-  rewrite Hs, Hf, Hp, Hw, Hm. cbn [andb]. rewrite andb_true_r.
-  unfold mem_str in Hc. cbn in Hc. rewrite orb_false_r in Hc.
-  destruct (String.eqb (cc_connections c) "random") eqn:E1; [reflexivity|]. cbn in Hc. rewrite Hc in *. cbn in Hu. exact Hu.
+  repeat rewrite andb_true_iff in H. destruct H as [[[[[[[[Hs Hpad] Hf] Hc] Hp] Hw] Hm] Hi] Hu].
+  assert ((cc_pad c <? 0)%Z = false) as -> by (apply Z.ltb_ge; apply Z.leb_le in Hpad; exact Hpad).
+  rewrite Hs, Hf, Hp, Hw, Hm, Hi. cbn [andb negb]. rewrite andb_true_r.
+  destruct (String.eqb (cc_connections c) "random") eqn:E1; [reflexivity|]. cbn [orb] in Hc. rewrite Hc in *. cbn in Hu. exact Hu.
+Qed.
+
+Lemma groupsum_ctor_reject : forall k, groupsum_ctor_domain k = false -> groupsum_ctor_accepts k = false.
+Proof. intros k H. unfold groupsum_ctor_domain, groupsum_ctor_accepts in *. rewrite H. reflexivity. Qed.
+Lemma groupsum_ctor_accept : forall k, groupsum_ctor_domain k = true -> groupsum_ctor_accepts k = true.
+Proof. intros k H. unfold groupsum_ctor_domain, groupsum_ctor_accepts in *. rewrite H. reflexivity. Qed.
+
+Lemma pool_compile_decides : forall k s p dims, pool_compile_accepts k s p dims = pool_domain k s p dims.
+Proof.
+  intros k s p dims. unfold pool_compile_accepts, pool_domain.
+  assert (E1 : (0 <=? 2 * p)%Z = (0 <=? p)%Z).
+  { destruct (0 <=? p)%Z eqn:E; [apply Z.leb_le in E; apply Z.leb_le; lia|apply Z.leb_gt in E; apply Z.leb_gt; lia]. }
+  rewrite E1.
+  assert (E2 : forallb (fun n => (n + 2 * p >=? k)%Z) dims = forallb (fun n => (k <=? n + 2 * p)%Z) dims).
+  { induction dims as [|n dims IHd]; [reflexivity|]. cbn [forallb]. rewrite IHd, Z.geb_leb. reflexivity. }
+  rewrite E2. rewrite <- !andb_assoc. reflexivity.
+Qed.
+
+Lemma list_eqb_nat_eq : forall a b, list_eqb_nat a b = true <-> a = b.
+Proof.
+  induction a as [|x a IH]; intros [|y b]; unfold list_eqb_nat; cbn; try (split; [discriminate|discriminate]).
+  - split; reflexivity.
+  - fold (list_eqb_nat a b) in *. specialize (IH b). unfold list_eqb_nat in IH.
+    destruct (x =? y) eqn:E.
+    + apply Nat.eqb_eq in E. subst y. cbn [andb].
+      split.
+      * intros H. f_equal. apply IH. destruct (length a =? length b); [exact H|discriminate].
+      * intros H. injection H as ->. assert (R : b = b) by reflexivity. apply IH in R.
+        destruct (length b =? length b); [exact R|discriminate].
+    + rewrite andb_false_r. split; [discriminate|]. intros H. injection H as -> _. rewrite Nat.eqb_refl in E. discriminate.
+Qed.
+
+Lemma compiled_forward_decides : forall d lf sh, d <> [] -> compiled_forward_accepts d lf sh = compiled_forward_domain d lf sh.
+Proof.
+  intros d lf [|b sample] Hd; [reflexivity|]. unfold compiled_forward_accepts, compiled_forward_domain.
+  cbn [length]. 
+  assert (Hlen2 : forall l : list nat, (S (length l) =? 2) = (length l =? 1)) by (intros; reflexivity).
+  assert (Hge2 : forall l : list nat, (2 <=? S (length l)) = (1 <=? length l)) by (intros; reflexivity).
+  rewrite Hlen2, Hge2.
+  assert (Hflat : forall n, list_eqb_nat sample [n] = (length sample =? 1) && (prodn sample =? n)).
+  { intros n. destruct sample as [|x [|y r]]; unfold list_eqb_nat; cbn; try reflexivity.
+    rewrite Nat.mul_1_r. rewrite andb_true_r. reflexivity. }
+  assert (Hsame : list_eqb_nat sample d = true -> prodn sample = prodn d /\ length sample = length d).
+  { intros H. apply list_eqb_nat_eq in H. subst. split; reflexivity. }
+  destruct d as [|d0 [|d1 dr]].
+  - congruence.
+  - (* declared = [d0] *) cbn [length]. change (1 <? 1) with false. rewrite andb_false_r.
+    destruct lf; cbn [negb].
+    + rewrite andb_false_r. reflexivity.
+    + rewrite andb_true_r.
+      destruct ((1 <=? length sample) && (prodn sample =? prodn [d0])) eqn:E.
+      * rewrite Hflat. apply andb_true_iff in E. destruct E as [_ E]. cbn [prodn fold_right] in *.
+        rewrite Nat.mul_1_r in E. rewrite E. rewrite andb_true_r. reflexivity.
+      * rewrite Hflat. cbn [prodn fold_right] in *. rewrite Nat.mul_1_r in E.
+        destruct (length sample =? 1) eqn:E1; [|reflexivity]. apply Nat.eqb_eq in E1. rewrite E1 in E. cbn in E. rewrite E. reflexivity.
+  - (* declared has rank >= 2 *)
+    cbn [length]. change (1 <? S (S (length dr))) with true. rewrite andb_true_r.
+    destruct ((1 <=? length sample) && (prodn sample =? prodn (d0 :: d1 :: dr))) eqn:E.
+    + rewrite Hflat. apply andb_true_iff in E. destruct E as [_ E]. rewrite E. rewrite andb_true_r. apply orb_comm.
+    + rewrite Hflat.
+      destruct (list_eqb_nat sample (d0 :: d1 :: dr)) eqn:Es.
+      * exfalso. destruct (Hsame eq_refl) as [Hp Hl]. rewrite Hp, Nat.eqb_refl, andb_true_r in E. rewrite Hl in E. discriminate E.
+      * cbn [orb]. destruct (length sample =? 1) eqn:E1; [|reflexivity]. apply Nat.eqb_eq in E1. rewrite E1 in E.
+        change (1 <=? 1) with true in E. cbn [andb] in *. rewrite E. reflexivity.
 Qed.
 
 Lemma compiler_reject : forall b cc n, compiler_domain b cc n = false -> compiler_accepts b cc n = false.
